@@ -1,6 +1,7 @@
 import ZV.Model.C22
 import ZV.Proofs.C22
 import ZV.Generated.C22
+import ZV.Proofs.C22Der
 /-!
   C22 — distinguished names round-trip through RDN sequences.
 
@@ -16,10 +17,16 @@ import ZV.Generated.C22
   4. `to_of_fill_canonical` / `emit_canonical` / `canonical_iff` — with the short-cut disabled, re-emission from the
      fields reproduces the sequence exactly for the decidable class `Canonical`, and for no other sequence.
 
-  These theorems are about the pure conversions, which preserve order: equality is exact (lists, not multisets).
-  The DER leg of the property (asn1.Marshal / Unmarshal of the sequence) is NOT modelled in Lean; there only the
-  order of the members inside one multi-valued RDN may change (SET OF is sorted by encoding).  It is checked on
-  the real code by the harness (T3 in go/props/c22: per-RDN multiset equality, byte-identical re-marshal).
+  Theorems 2–4 are about the pure conversions, which preserve order: equality is exact (lists, not multisets).
+
+  5. The DER leg (`rdnseq_der_roundtrip`, `name_der_roundtrip`, `name_der_marshal_ok`, `name_string_choice`): the Go type
+     `pkix.RDNSequence` is the schema term `rdnSchema` = SEQUENCE OF (SET OF SEQUENCE {OID, string}) of the deep-embedded
+     model of encoding/asn1 (ZV.Model.C18; `interface{}` is represented by the string kind, see ZV.Model.C22Der), and
+     the statements are COROLLARIES of the C18 theorem `unmarshal_marshal_equiv` instantiated at that schema, composed
+     with `fill_to`.  Only the order of the members inside one multi-valued RDN may change (SET OF is sorted by
+     encoding): every slice field comes back as a multiset (`List.Perm`), the scalars and the order of the RDNs exactly.
+     The model pipeline is tied to the real `asn1.Marshal` / `asn1.Unmarshal` / `FillFromRDNSequence` by the T2 stream
+     `c22 d` (bytes, decoded sequence, filled Name, membership in the domain `seqOK`).
 -/
 namespace ZV.C22
 
@@ -199,5 +206,108 @@ example : Canonical [[mkATV oidCommonName []]] = false := by decide
 example : Canonical [[⟨oidCountry, .other 2 [1]⟩]] = false := by decide
 example : Canonical [[mkATV [2, 5, 4, 12] [0x61]]] = false := by decide
 example : Canonical [[]] = false := by decide
+
+/-! ### the DER leg: Name → ToRDNSequence → asn1.Marshal → asn1.Unmarshal → FillFromRDNSequence -/
+
+/-- **the Printable/UTF8 choice.**  For a value that is valid UTF-8 `makeField` writes a PrintableString (tag 19) or a
+    UTF8String (tag 12) — PrintableString exactly when every byte is printable ASCII other than `*` and `&` — and
+    whichever it picks, the strict decoder reads the content back as the same Go string. -/
+theorem name_string_choice (s : Bytes) (h : C18.utf8Valid s = true) :
+    ∃ t, stringChoice s = some t ∧ (t = 19 ∨ t = 12) ∧ readBack t s = .ok (.bytes s) ∧
+      (t = 19 ↔ s.all (fun b => decide (b.toNat < 128) && C18.isPrintable b false false) = true) := by
+  rcases stringChoice_cases s h with ⟨h1, hp⟩ | h1
+  · exact ⟨19, h1, Or.inl rfl, readBack_choice s 19 h1, ⟨fun _ => hp, fun _ => rfl⟩⟩
+  · refine ⟨12, h1, Or.inr rfl, readBack_choice s 12 h1, ⟨fun hc => by omega, fun hp => ?_⟩⟩
+    have : stringChoice s = some 19 := by unfold stringChoice C18.stringTag; simp [hp]
+    rw [this] at h1; cases h1
+
+example : stringChoice [0x55, 0x53] = some 19 ∧ stringChoice [0x2a] = some 12 ∧ stringChoice [0xc3, 0xa9] = some 12 ∧
+    stringChoice [0xff] = none := by decide
+
+/-- **pkix.RDNSequence round-trips through DER** (instance of C18 `unmarshal_marshal_equiv` at `rdnSchema`).
+    For every sequence of the decidable domain `seqOK` (every value a Go string, valid UTF-8; every attribute type an
+    OBJECT IDENTIFIER the codec carries: ≥ 2 arcs, first ≤ 2, second < 40 unless the first is 2, sub-identifiers < 2^31) — nil,
+    empty, empty RDNs, multi-valued RDNs, repeated and unknown types included — strict `asn1.Unmarshal` of
+    `asn1.Marshal(seq)` followed by any `rest` returns exactly `rest` and a sequence with the same number of RDNs in the
+    same order, each RDN a permutation of the original one (`RdnPerm`), and that sequence marshals to the same bytes. -/
+theorem rdnseq_der_roundtrip (seq : Option RDNSeq) (hok : seqOK (orNil seq) = true) (der rest : Bytes)
+    (hm : marshalSeq seq = .ok der) (hl : der.length < 2147483648) :
+    ∃ seq', unmarshalSeq (der ++ rest) = .ok (seq', rest) ∧ RdnPerm (orNil seq) seq' ∧
+      marshalSeq (some seq') = .ok der := by
+  obtain ⟨v', h1, h2, h3⟩ := C18.unmarshal_marshal_equiv rdnSchema {} (seqToVal seq) der rest (inDomain_seq seq hok) hm hl
+    (fun ho => by rw [C18.omitted_false _ {} _ rfl rfl] at ho; cases ho)
+  refine ⟨valToSeq v', by simp [unmarshalSeq, h1], veq_seq seq v' hok h2, ?_⟩
+  have hall : C18.All2 (fun a b => (C18.elems b).Perm (C18.elems a)) ((orNil seq).map rdnToVal) (C18.elems v') := by
+    have h2' := h2
+    simp only [rdnSchema, C18.VEq, Bool.or_false] at h2'
+    simp only [show (({} : C18.Params).set = true) = False from by simp, if_false] at h2'
+    have : C18.elems (seqToVal seq) = (orNil seq).map rdnToVal := by
+      cases seq with
+      | none => rfl
+      | some s => simp only [seqToVal, orNil]; rw [← velems_eq, velems_chain]
+    rw [this] at h2'
+    exact C18.All2_mono (fun a _ b hab => veq_rdn a b hab) h2'
+  simp only [seqOK, List.all_eq_true] at hok
+  exact remarshal (orNil seq) v' der hok hall h3
+
+/-- the hypotheses are satisfiable, and `RdnPerm` is not equality: the two-valued RDN `C=US + C=DE` is in the domain, Marshal
+    succeeds on it, and the DER encoding (members sorted: `DE` first) decodes to the PERMUTED RDN -/
+example : seqOK [[mkATV oidCountry [0x55, 0x53], mkATV oidCountry [0x44, 0x45]]] = true ∧
+    (∃ der, marshalSeq (some [[mkATV oidCountry [0x55, 0x53], mkATV oidCountry [0x44, 0x45]]]) = .ok der) ∧
+    unmarshalSeq [0x30, 0x18, 0x31, 0x16, 0x30, 0x09, 0x06, 0x03, 0x55, 0x04, 0x06, 0x13, 0x02, 0x44, 0x45,
+           0x30, 0x09, 0x06, 0x03, 0x55, 0x04, 0x06, 0x13, 0x02, 0x55, 0x53] =
+      .ok ([[mkATV oidCountry [0x44, 0x45], mkATV oidCountry [0x55, 0x53]]], []) :=
+  ⟨by decide, marshalSeq_ok _ (by decide), by decide⟩
+
+/-- **Marshal never fails on the domain**: `asn1.Marshal(n.ToRDNSequence())` succeeds for every Name whose emitted values
+    are valid UTF-8 (and whose `ExtraNames` are string-valued with encodable types). -/
+theorem name_der_marshal_ok (n : Name) (h : n.originalRDNS = none) (hok : seqOK (emit n) = true) :
+    ∃ der, marshalSeq (toRDN n) = .ok der := by
+  apply marshalSeq_ok
+  have : orNil (toRDN n) = emit n := by
+    simp only [toRDN, h]; cases emit n <;> rfl
+  rw [this]; exact hok
+
+/-- **C22, DER leg: Name → ToRDNSequence → Marshal → Unmarshal → FillFromRDNSequence.**  For every Name `n` with nil
+    `OriginalRDNS` whose emitted sequence is in the domain (`seqOK (emit n)`: the values of the 13 emitted slice fields, of
+    CommonName / SerialNumber and of `ExtraNames` are valid UTF-8 strings, `ExtraNames` types are encodable OIDs; no bound on
+    the number of values, empty strings and duplicates allowed), with `der = Marshal(ToRDNSequence(n))` (< 2^31 bytes):
+    strict `Unmarshal(der)` consumes everything and yields a sequence `seq'` that is `ToRDNSequence(n)` with the members
+    of each RDN permuted (DER sorts SET OF), and `m = FillFromRDNSequence(seq')` satisfies
+    * every slice field of `m` is, AS A MULTISET, what `fill_to` says the pure conversion returns (the emitted values of
+      that field followed by the `ExtraNames` values dispatched to it);
+    * each scalar (`CommonName`, `SerialNumber`) is EXACTLY the pure conversion's (the attribute types that set a scalar
+      only ever stand alone in their RDN, so sorting cannot reorder them);
+    * `Names` is a permutation of the flattened sequence, `ExtraNames` is empty, and `ToRDNSequence(m)` is `seq'`
+      (which re-marshals to `der`, see `rdnseq_der_roundtrip`). -/
+theorem name_der_roundtrip (n : Name) (h : n.originalRDNS = none) (hok : seqOK (emit n) = true) (der : Bytes)
+    (hm : marshalSeq (toRDN n) = .ok der) (hl : der.length < 2147483648) :
+    ∃ seq', unmarshalSeq der = .ok (seq', []) ∧ RdnPerm (emit n) seq' ∧ marshalSeq (some seq') = .ok der ∧
+      (∀ f, ((fill (some seq')).get f).Perm (emittedView n f ++ n.extraNames.flatMap (valsFor f))) ∧
+      (∀ s, (fill (some seq')).getS s = n.extraNames.foldl (stepS s) (n.getS s)) ∧
+      (fill (some seq')).names.Perm (emit n).flatten ∧ (fill (some seq')).extraNames = [] ∧
+      toRDN (fill (some seq')) = some seq' := by
+  have he : orNil (toRDN n) = emit n := by
+    simp only [toRDN, h]; cases emit n <;> rfl
+  obtain ⟨seq', h1, h2, h3⟩ := rdnseq_der_roundtrip (toRDN n) (by rw [he]; exact hok) der [] hm hl
+  rw [List.append_nil] at h1
+  rw [he] at h2
+  obtain ⟨f1, f2, f3, f4, _⟩ := fill_rdnPerm (emit n) seq' h2 (fun sc => emit_multi_no_scalar n sc)
+  have hflat : (emit n).flatten = (emitL emitRows n).flatten ++ n.extraNames := by
+    rw [emit_eq]; simp [flatten_singletons]
+  refine ⟨seq', h1, h2, h3, fun f => ?_, fun s => ?_, f3, f4, to_of_fill_original (some seq')⟩
+  · have := f1 f
+    rwa [hflat, List.flatMap_append, rows_view] at this
+  · rw [f2 s, hflat, List.foldl_append, rows_scalar]
+
+/-- the hypotheses are satisfiable by a Name with a three-valued field whose DER order differs from the field order,
+    a UTF-8 value, an empty value, a duplicate and an ExtraNames entry; outside the domain: invalid UTF-8, a non-string. -/
+example :
+    let n : Name := { commonName := [0x61], country := [[0x55, 0x53], [0x44, 0x45], [0x55, 0x53]],
+                      organization := [[0xc3, 0xa9], []], extraNames := [⟨[2, 5, 4, 12], .str [0x78]⟩] }
+    n.originalRDNS = none ∧ seqOK (emit n) = true := by decide
+example : seqOK (emit { organization := [[0xff, 0xfe]] }) = false ∧
+    seqOK (emit { extraNames := [⟨oidCountry, .other 2 [1]⟩] }) = false ∧
+    seqOK (emit { extraNames := [⟨[1, 40], .str []⟩] }) = false := by decide
 
 end ZV.C22
